@@ -82,6 +82,19 @@ CLAIMED = {
    note="Trusted: TLC, harness plugins injecting the violation into an otherwise correct plugin of each kind. Chunks of <=500 rows.",
    technique="TLA+ model of the check chains (TLC) + execution of every enumerated tuple on the real code",
    design="4/C12"),
+ "C06": dict(
+   text="Every failure position (stage kind x chunk: source, plugins, multi-output plugin, loaders, savers of targets and side "
+        "outputs, saver close, consumer failure / abandonment) of four topologies is executed on both real processors; the "
+        "threaded pipeline (real Context + ThreadedMailboxProcessor + Mailbox) runs under the deterministic scheduler for many "
+        "seeded schedules (uniform and priority-based), a hang is 'no enabled thread while some are unfinished'. TLC judges every "
+        "observation against the P-level spec/PipelineObs.tla (original exception reaches the caller, no hang, no live threads, "
+        "no silent truncation, failure-free runs complete). The mailbox-level design (all schedules, lost wake-ups) is covered by "
+        "spec/Mailbox.tla and its lock-step binding (see C05).",
+   note="Schedules of whole pipelines are sampled, not enumerated; timeouts never fire; capacity 2/4 exceeds every plugin lag. "
+        "A pipeline-level TLA+ model of the exception relay (Pipeline.tla) is work in progress; until then the pipeline part of "
+        "this check is scheduler-driven exploration of the real code with a TLC-evaluated P-level.",
+   technique="deterministic-scheduler exploration of the real pipeline + TLC-evaluated P-level (PipelineObs.tla); Mailbox.tla model checking for the mailbox layer",
+   design="4/C06"),
 }
 NOT_BUILT = "decision procedure (TLA+ module + binding) not built yet in this session; see DESIGN.md section 4 for the plan"
 
